@@ -162,46 +162,76 @@ def rule_writers(ctx, tu, eff):
     ctx.floor(R, 10)
 
 
+def expr_rat(n, leaves):
+    """rational normal form of a C++ arithmetic expression; every table read / call becomes a leaf keyed by its
+    canonical text"""
+    from ..poly import Rat
+    from fractions import Fraction
+    n = strip(n, casts=True)
+    k = n.get("kind")
+    if k in ("IntegerLiteral", "FloatingLiteral"):
+        return Rat.const(Fraction(n["value"]))
+    if k == "BinaryOperator" and n.get("opcode") in ("+", "-", "*", "/"):
+        l, r = expr_rat(kids(n)[0], leaves), expr_rat(kids(n)[1], leaves)
+        return {"+": l + r, "-": l - r, "*": l * r, "/": l / r}[n["opcode"]]
+    if k == "UnaryOperator" and n.get("opcode") == "-":
+        return -expr_rat(kids(n)[0], leaves)
+    t = cxa.canon(n)
+    leaves[t] = n
+    return Rat.sym(t)
+
+
+def flux_rule(ctx, tu, R):
+    """the net flux across an interface, as a rational function of its leaves, in both base classes"""
+    from ..poly import Rat
+    S = Poly.sym
+    # 3D: Rate(src, s, dir) - Rate(neighbour(src, dir), s, opposed(dir))
+    f = tu.fn("SimulationAlgorithm3DBase::DiffusionRateDifference")
+    rets = [n for n in walk(f.body) if n.get("kind") == "ReturnStmt"]
+    ctx.need(len(rets) == 1, R, "DiffusionRateDifference (3D): expected one return")
+    ps = f.param_names()
+    leaves = {}
+    got = expr_rat(kids(rets[0])[0], leaves)
+    out_ = "DiffusionRate(%s, %s, %s)" % tuple(ps)
+    in_ = "DiffusionRate(mesh_neighbors[%r], %s, opposed_direction[%s])" % (S(ps[0]) * Poly.const(6) + S(ps[2]), ps[1], ps[2])
+    want = Rat.sym(out_) - Rat.sym(in_)
+    ctx.check(got.equals(want), R, rets[0], f.qual, text(rets[0])[:110],
+              "outflow of (cell, species, direction) minus the neighbour's flow back in the opposed direction",
+              "the net flux is %r, expected %s - %s: what one cell loses is not what its neighbour gains" % (got, out_, in_))
+    g3 = tu.fn("SimulationAlgorithm3DBase::DiffusionRate")
+    r3 = [n for n in walk(g3.body) if n.get("kind") == "ReturnStmt"]
+    p3 = g3.param_names()
+    got3 = expr_rat(kids(r3[0])[0], {})
+    want3 = Rat.sym("mesh_x[%r]" % (S(p3[0]) * S("n_species") + S(p3[1]))) * \
+        Rat.sym("mesh_kd[%r]" % (S(p3[0]) * S("n_species") * Poly.const(6) + S(p3[1]) * Poly.const(6) + S(p3[2])))
+    ctx.check(got3.equals(want3), R, r3[0], g3.qual, text(r3[0])[:100], "amount of the source x its constant for that direction",
+              "the directed diffusion rate is %r" % (got3,))
+    # Graph: x[i,s]*kd_out[i][s,n] - x[nb(i,n),s]*kd_in[i][s,n]
+    g = tu.fn("SimulationAlgorithmGraphBase::DiffusionRateDifference")
+    rets = [n for n in walk(g.body) if n.get("kind") == "ReturnStmt"]
+    ctx.need(len(rets) == 1, R, "DiffusionRateDifference (graph): expected one return")
+    i, s_, n_ = g.param_names()
+    leaves = {}
+    got = expr_rat(kids(rets[0])[0], leaves)
+    sx = "mesh_x[%r]" % (S(i) * S("n_species") + S(s_))
+    kd = "[%s][%r]" % (i, S(s_) * S("mesh_neighbor_n[%s]" % i) + S(n_))
+    nx = "mesh_x[%r]" % (S("mesh_neighbor_index[%s][%s]" % (i, n_)) * S("n_species") + S(s_))
+    want = Rat.sym(sx) * Rat.sym("mesh_kd_out" + kd) - Rat.sym(nx) * Rat.sym("mesh_kd_in" + kd)
+    ctx.check(got.equals(want), R, rets[0], g.qual, text(rets[0])[:120],
+              "x[i,s]*kd_out[i][s,n] - x[neighbour(i,n),s]*kd_in[i][s,n]",
+              "the net edge flux is %r, expected x_i*kd_out - x_j*kd_in: with unequal volumes the amount leaving one node is "
+              "not the amount entering the other, and the rate law of the kinetics functions is not reproduced" % (got,))
+
+
 def rule_antisym(ctx, tu):
     R = "C02.ANTISYM"
     from .. import sib
-    # 3D: DiffusionRateDifference = Rate(src, s, dir) - Rate(nb(src, dir), s, opp[dir])
-    f = tu.fn("SimulationAlgorithm3DBase::DiffusionRateDifference")
-    r = kids(kids(f.body)[0])[0]
-    r = strip(r, casts=True)
-    ok = r.get("kind") == "BinaryOperator" and r.get("opcode") == "-"
-    ctx.need(ok, R, "DiffusionRateDifference (3D): return is not a difference")
-    a, b = call_parts(kids(r)[0]), call_parts(kids(r)[1])
-    ctx.need(a and b and a[0] == "DiffusionRate" and b[0] == "DiffusionRate", R, "DiffusionRateDifference (3D): operands "
-             "are not DiffusionRate calls")
-    ps = f.param_names()
-    a_args = [cxa.canon(x) for x in a[2]]
-    b_args = [cxa.canon(x) for x in b[2]]
-    ctx.check(a_args == ps, R, kids(r)[0], f.qual, "outgoing flux DiffusionRate(%s)" % ", ".join(a_args), "of (source, species, direction)", "")
-    want_b = ["mesh_neighbors[%r]" % (Poly.sym(ps[0]) * Poly.const(6) + Poly.sym(ps[2])), ps[1], "opposed_direction[%s]" % ps[2]]
-    ctx.check(b_args == want_b, R, kids(r)[1], f.qual, "incoming flux DiffusionRate(%s)" % ", ".join(b_args),
-              "the neighbour's flux in the opposite direction", "the flux subtracted is not the neighbour's flux back "
-              "across the same interface (expected %s)" % want_b)
-    # Graph: x[i]*kd_out[i][s,n] - x[nb(i,n)]*kd_in[i][s,n]
-    g = tu.fn("SimulationAlgorithmGraphBase::DiffusionRateDifference")
-    r = strip(kids(kids(g.body)[0])[0], casts=True)
-    ctx.need(r.get("kind") == "BinaryOperator" and r.get("opcode") == "-", R, "DiffusionRateDifference (graph): not a difference")
-    ps = g.param_names()
-    out_, in_ = cxa.canon(kids(r)[0]), cxa.canon(kids(r)[1])
-    S = Poly.sym
-    i, s, n = ps
-    sx = "mesh_x[%r]" % (S(i) * S("n_species") + S(s))
-    kd = "[%s][%r]" % (i, S(s) * S("mesh_neighbor_n[%s]" % i) + S(n))
-    nx = "mesh_x[%r]" % (S("mesh_neighbor_index[%s][%s]" % (i, n)) * S("n_species") + S(s))
-    ctx.check(out_ == "(%s * mesh_kd_out%s)" % (sx, kd), R, kids(r)[0], g.qual, "outgoing " + out_[:80], "x[i,s] * kd_out[i][s,n]", "")
-    ctx.check(in_ == "(%s * mesh_kd_in%s)" % (nx, kd), R, kids(r)[1], g.qual, "incoming " + in_[:80],
-              "x[neighbour(i,n), s] * kd_in[i][s,n]", "the incoming flux does not use the neighbour's amount with the "
-              "same interface's reverse constant")
+    flux_rule(ctx, tu, R)
     # the interface constants: symmetric diffusivity, kd_in = kd_out with the two volumes exchanged
     res = sib.check_antisym(ctx, tu)
     for okk, node, fn, what, good, bad in res:
         ctx.check(okk, R, node, fn, what, good, bad)
-    ctx.floor(R, 7)
+    ctx.floor(R, 6)
 
 
 def run(ctx):
